@@ -82,14 +82,15 @@ def run(ctx):
                 rn.violate(key, "pest accepts the fixture grammar but the emitted code does not compile: [%s] %s" % (code, msg))
     # every rule kind under every combination of WHITESPACE / COMMENT definitions (both / WHITESPACE only / COMMENT only / none),
     # both generators (seed C11-7: the COMMENT-only arm of the skip type named WHITESPACE — such grammars stopped compiling)
-    for unit, what in (("fx_kinds2", "rule kinds x skip-rule combinations, optimizer on"), ("fx_kinds2r", "the same with pest_optimizer = false")):
+    for unit, what in (("fx_kinds2", "rule kinds x skip-rule combinations, optimizer on"), ("fx_kinds2r", "the same with pest_optimizer = false"),
+                       ("fx_override", "grammars that shadow built-ins (NEWLINE, ASCII_*, unicode classes, WHITESPACE / COMMENT as tokens) and use them")):
         try:
             facts.load(unit)
             rn.inst("%s (%s)" % (unit, what), None, "ok")
         except facts.BuildFailed as ex:
             first = [l for l in ex.out.splitlines() if l.startswith("error")][:2]
             rn.violate("%s (%s)" % (unit, what), "pest accepts the fixture grammars but the emitted code does not compile: %s" % " | ".join(first)[:300])
-    rn.require(5, "fixtures")
+    rn.require(6, "fixtures")
 
     # ---- recursion while parsing goes through the grammar only
     ra = ctx.rule("R11-ACYCLIC", "among the functions reachable from the parse entry points, calls that are not dispatched on a child node type form no cycle: "
